@@ -11,17 +11,37 @@ Two kinds of case (plain JSON):
       create  FilesParagraph.create(patterns, ...)
       assign  create(prev); match; .files = patterns; match; .files = prev; match; .files = patterns;
               match   (the compiled pattern is cached per paragraph, keyed by the Files text)
+              "handle": "own" (default) | "deb822" | "twin" - through which handle the Files value
+              is changed: the paragraph's own ``files`` property; the Deb822 object the paragraph
+              was built over with the public constructor FilesParagraph(data) (the Files text,
+              spelt with ``seps``, is stored into it); a second FilesParagraph wrapping the same
+              Deb822.  Whatever the route, ``p.files`` must show the new list and ``p.matches``
+              must follow it (the twin is asked as well).
       parse   a two-paragraph document whose Files field is spelt with ``seps`` (blanks, tabs,
-              continuation lines), read with Copyright(file object)
+              continuation lines), read with Copyright(...) in the form given by "input"/"enc"
+              (see below)
+
+  "input": "text-file" (default; io.StringIO) | "text-lines" (list of str) |
+           "bytes-file" (io.BytesIO) | "byte-lines" (list of bytes)
+  "enc":   with a bytes input, the codec the document is encoded in; it is handed to
+           Copyright(..., encoding=enc), the documented parameter for raw byte input (one of
+           CODECS; anything else, or a document the codec cannot spell, means utf-8)
 
   {"kind": "doc", "via": "dump" | "text",
    "paras": [["F", [glob, ...], [seps]] | ["L", synopsis], ...],
    "names": [file name, ...]}
 
       dump    Copyright(); add_files_paragraph / add_license_paragraph in the given order; checked,
-              then dumped, re-read and checked again
+              then dumped, re-read (in the "input"/"enc" form) and checked again.  "wrap": true
+              builds every Files paragraph as FilesParagraph(Deb822) over a Deb822 the harness
+              keeps, so that edits can go through another handle
       text    the document is written out by the harness (paragraph order as given, License
-              paragraphs between Files paragraphs) and read with Copyright(file object)
+              paragraphs between Files paragraphs) and read with Copyright(...) in the
+              "input"/"enc" form
+      "edits": [["files", i, [glob, ...]] | ["files", i, [glob, ...], handle] | ["add", [glob, ...]]]
+              applied one by one to the live document, every name asked again after each
+              (handle as above; "deb822"/"twin" fall back to "own" where the harness holds no
+              Deb822, i.e. in parsed documents)
 
 Oracle: vcheck.model.c16_glob (no ``re``).  ``p.matches(name)`` must equal "some pattern matches the
 whole name" when every pattern of the list is legal and must raise MachineReadableFormatError when
@@ -30,6 +50,8 @@ paragraph the reference says matches, or None.
 """
 import io
 import itertools
+import posixpath
+import unicodedata
 
 from hypothesis import strategies as st
 
@@ -37,6 +59,7 @@ from ..core import Violation, Enum, Hyp, short
 from ..model import c16_glob as G
 
 from debian import copyright as C
+from debian import deb822 as D
 
 ID = "C16"
 LEVEL = "exploration"
@@ -45,11 +68,21 @@ RULE = ("cases are (Files pattern list, way the list reaches the paragraph, file
         "(<=3 tokens) and of two patterns (<=2 tokens; thorough also <=3 tokens without the "
         "escaped backslash, and three patterns of <=2 tokens over 4) from the token alphabet {a / * ? \\* \\\\} plus 8 (two patterns: 3) illegal "
         "patterns x every name of <=3 (thorough, one pattern: <=4) characters over {a / * \\ newline}; every document of 1..3 "
-        "one-pattern Files paragraphs over 6 patterns x 15 names; generated: 1..4 patterns of 1..6 "
+        "one-pattern Files paragraphs over 6 patterns x 15 names (two-paragraph documents also "
+        "edited through the paragraph, the Deb822 under it or a second wrapper); one paragraph "
+        "whose list is replaced through each of the three handles; 1..2 Files paragraphs over 9 "
+        "lists x 6 matching names in 15 spellings (./n /n n/ x/../n ././n n//n n/. other case, "
+        "blanks, NFD, backslashes, ../n, n+newline); documents with non-ASCII letters in their "
+        "patterns as text file / text lines / bytes file / byte lines in 7 codecs (utf-8 koi8-r "
+        "cp1251 iso8859-2 iso8859-7 latin-1 shift_jis) with encoding=codec for the byte forms; "
+        "generated: 1..4 patterns of 1..6 "
         "tokens over a 25-token alphabet (regex meta characters, escapes, rare illegal escapes) "
-        "reaching the paragraph by create / re-assignment / parsing, with names derived from the "
-        "patterns (an instance of a pattern, then one character added, removed or replaced, or two "
-        "instances concatenated) and documents of 1..4 Files paragraphs. Non-trivial = a legal "
+        "reaching the paragraph by create / re-assignment (own files property, the wrapped Deb822, "
+        "a twin wrapper) / parsing (the four input forms, letters renamed into the codec's), with "
+        "names derived from the "
+        "patterns (an instance of a pattern, then one character added, removed or replaced, two "
+        "instances concatenated, or the instance in another spelling) and documents of 1..4 Files "
+        "paragraphs, half of the built ones over caller-owned Deb822 objects. Non-trivial = a legal "
         "list of >=2 patterns and a name of which some pattern matches a proper prefix or proper "
         "suffix; for documents >=2 Files paragraphs and a name matched by two of them or matched by "
         "one and nearly by another; distinct = distinct canonical JSON of the case")
@@ -61,13 +94,23 @@ ASSUMPTIONS = [
     "pattern separators of parsed documents",
     "a document holding an illegal pattern: find_files_paragraph may raise the format error or "
     "answer as if that paragraph matched nothing",
+    "a FilesParagraph built with the public constructor FilesParagraph(Deb822) shares that "
+    "Deb822 with its builder (it is not copied): after the Files value is changed through the "
+    "Deb822 or through a second wrapper, .files of the first wrapper must read back the new list "
+    "(checked) and matches() must follow what .files shows",
+    "bytes input: the document is encoded by Python's codec and Copyright(..., encoding=codec) "
+    "must read back exactly the patterns written; only ASCII-compatible codecs and letters the "
+    "codec round-trips; text input is never combined with a non-default encoding argument "
+    "(deb822 re-decodes str lines with it - outside what the parameter is documented for)",
     "Hypothesis 6.168 generators; sha1 for distinctness",
 ]
 EXHAUSTIVE = {
     "quick": "all lists of one pattern of <=3 tokens and of two patterns of <=2 tokens x names of "
              "<=3 chars (tokens a / * ? \\* \\\\ + 8 resp. 3 illegal patterns; name chars "
              "a / * \\ newline); all documents of 1..3 one-pattern Files paragraphs over 6 "
-             "patterns x 15 names",
+             "patterns x 15 names; all (old, new) pairs of 7 one-pattern lists x 3 handles x 15 "
+             "names; all documents of 1..2 paragraphs over 9 lists x 6 names x 15 spellings; "
+             "7 codecs x 4 input forms x all documents of 1..2 paragraphs over 5 lists",
     "thorough": "quick, plus one pattern x names of 4 chars, all lists of two patterns of <=3 tokens "
                 "over {a / * ? \\*} and of three patterns of <=2 tokens over {a / * ?} x names <=3 chars",
 }
@@ -101,8 +144,89 @@ def _sep(seps, i):
     return " "
 
 
+def files_value(patterns, seps):
+    return "".join(_sep(seps, i) + p for i, p in enumerate(patterns))
+
+
 def files_field(patterns, seps):
-    return "Files:" + "".join(_sep(seps, i) + p for i, p in enumerate(patterns)) + "\n"
+    return "Files:" + files_value(patterns, seps) + "\n"
+
+
+# ------------------------------------------------------------------------------------------
+# the forms in which a document reaches Copyright(...)
+
+INPUTS = ("text-file", "text-lines", "bytes-file", "byte-lines")
+# ASCII-compatible codecs (field names and line ends are ASCII bytes in all of them) with letters
+# each of them can spell; the generators put these letters into patterns and names
+CODECS = {
+    "utf-8": "\u00e9\u0427\u0142\u65e5",
+    "koi8-r": "\u0427\u0418\u0422\u0439\u0451",
+    "cp1251": "\u0415\u0451\u0416\u044f",
+    "iso8859-2": "\u0142\u0105\u017a\u0118",
+    "iso8859-7": "\u03c0\u03b7\u03b3\u0391",
+    "latin-1": "\u00e9\u00ff\u00c5\u00df",
+    "shift_jis": "\u65e5\u672c\u30a2\u8868",
+}
+
+
+def _lines(text):
+    ls = text.split("\n")
+    if ls and ls[-1] == "":
+        ls.pop()
+    return [l + "\n" for l in ls]
+
+
+def read_document(text, case, labels):
+    """Copyright(...) over ``text`` in the input form the case asks for."""
+    inp = case.get("input")
+    if inp not in INPUTS:
+        inp = "text-file"
+    labels.add("input:" + inp)
+    if inp == "text-file":
+        return C.Copyright(io.StringIO(text))
+    if inp == "text-lines":
+        return C.Copyright(_lines(text))
+    enc = case.get("enc")
+    if enc not in CODECS:
+        enc = "utf-8"
+    try:
+        raw = text.encode(enc)
+        if raw.decode(enc) != text:
+            raise UnicodeError
+    except UnicodeError:
+        enc = "utf-8"
+        raw = text.encode(enc)
+    labels.add("enc:" + enc)
+    if any(ord(ch) > 127 for ch in text):
+        labels.add("bytes-input-with-non-ascii-text")
+    if inp == "bytes-file":
+        return C.Copyright(io.BytesIO(raw), encoding=enc)
+    return C.Copyright([l.encode(enc) for l in _lines(text)], encoding=enc)
+
+
+# ------------------------------------------------------------------------------------------
+# handles through which the Files value of a live paragraph can be changed
+
+HANDLES = ("own", "deb822", "twin")
+
+
+def wrap_para(patterns):
+    """(paragraph, the Deb822 it wraps): the public constructor over a caller-owned Deb822."""
+    d = D.Deb822()
+    d["Files"] = " ".join(patterns)
+    d["Copyright"] = "c"
+    d["License"] = "L"
+    return C.FilesParagraph(d), d
+
+
+def set_files(p, d, twin, patterns, handle, seps=None):
+    """Make ``patterns`` the Files list of paragraph ``p`` through the given handle."""
+    if handle == "deb822" and d is not None:
+        d["Files"] = files_value(patterns, seps).lstrip(" \t")
+    elif handle == "twin" and twin is not None:
+        twin.files = list(patterns)
+    else:
+        p.files = list(patterns)
 
 
 # ------------------------------------------------------------------------------------------
@@ -314,21 +438,40 @@ def check_para(case):
         pref = Ref(prev)
         if not pref.legal:
             labels.add("reassign-from-illegal-list")
-        p = new_para(prev)
+        handle = case.get("handle") if case.get("handle") in HANDLES else "own"
+        labels.add("handle:" + handle)
+        seps = case.get("seps")
+        d = twin = None
+        if handle == "own":
+            p = new_para(prev)
+        else:
+            p, d = wrap_para(prev)
+            if handle == "twin":
+                twin = C.FilesParagraph(d)
+        how = "Files changed through %s: " % handle
         observe(p, pref, names, "before re-assignment")
-        p.files = list(patterns)
-        readback(p, patterns, "assign")
-        near = observe(p, ref, names, "after .files = new", labels, fresh_check=True)
-        p.files = list(prev)
-        observe(p, pref, names, "after .files = old again", fresh_check=True)
-        p.files = list(patterns)
-        observe(p, ref, names, "after .files = new again", fresh_check=True)
+        if twin is not None:
+            observe(twin, pref, names[:2], "twin before re-assignment")
+        set_files(p, d, twin, patterns, handle, seps)
+        readback(p, patterns, how + "assign")
+        near = observe(p, ref, names, how + "after Files = new", labels, fresh_check=True)
+        if twin is not None:
+            observe(twin, ref, names[:2], how + "twin after Files = new", fresh_check=True)
+        set_files(p, d, twin, prev, handle, seps)
+        readback(p, prev, how + "assign old")
+        observe(p, pref, names, how + "after Files = old again", fresh_check=True)
+        # the third change mixes the routes (own property after another handle) in half the cases
+        set_files(p, d, twin, patterns, "own" if len(names) % 2 else handle, seps)
+        readback(p, patterns, how + "assign new again")
+        observe(p, ref, names, how + "after Files = new again", fresh_check=True)
+        if twin is not None:
+            observe(twin, ref, names[:2], how + "twin after Files = new again", fresh_check=True)
     else:
         seps = case.get("seps")
         text = FORMAT + "\n" + files_field(patterns, seps) + "Copyright: c\nLicense: L\n"
         if "\n" in files_field(patterns, seps)[:-1]:
             labels.add("parse:patterns-on-continuation-lines")
-        doc = C.Copyright(io.StringIO(text))
+        doc = read_document(text, case, labels)
         ps = list(doc.all_files_paragraphs())
         if len(ps) != 1:
             raise Violation("files-field-misread", "%r parsed into %d Files paragraphs" % (text, len(ps)))
@@ -369,15 +512,25 @@ def check_doc(case):
 
     if via == "dump":
         doc = C.Copyright()
+        wrap = case.get("wrap") is True
+        if wrap:
+            labels.add("doc:paragraphs-wrap-caller-owned-deb822")
+        handles = []
         for e in norm:
             if e[0] == "F":
-                doc.add_files_paragraph(new_para(e[1]))
+                if wrap:
+                    p, d = wrap_para(e[1])
+                    handles.append(d)
+                else:
+                    p = new_para(e[1])
+                    handles.append(None)
+                doc.add_files_paragraph(p)
             else:
                 doc.add_license_paragraph(C.LicenseParagraph.create(C.License(e[1], "text")))
         nt = doc_observe(doc, flists, names, "built document", labels)
-        nt = apply_edits(doc, flists, names, case.get("edits"), labels) or nt
+        nt = apply_edits(doc, flists, names, case.get("edits"), labels, handles, wrap) or nt
         text = doc.dump()
-        doc2 = C.Copyright(io.StringIO(text))
+        doc2 = read_document(text, case, labels)
         doc_observe(doc2, flists, names, "re-read document %s" % short(text, 200), set())
     else:
         chunks = [FORMAT]
@@ -387,37 +540,65 @@ def check_doc(case):
             else:
                 chunks.append("License: %s\n text\n" % e[1])
         text = "\n".join(chunks)
-        doc = C.Copyright(io.StringIO(text))
+        doc = read_document(text, case, labels)
         nt = doc_observe(doc, flists, names, "document %s" % short(text, 200), labels)
-        nt = apply_edits(doc, flists, names, case.get("edits"), labels) or nt
+        nt = apply_edits(doc, flists, names, case.get("edits"), labels,
+                         [None] * len(flists), False) or nt
     return (nt and len(flists) >= 2, sorted(labels))
 
 
-def apply_edits(doc, flists, names, edits, labels):
+def apply_edits(doc, flists, names, edits, labels, handles, wrap):
     """The same document object is queried again after each change to it: which paragraph a name
-    resolves to is a function of the current pattern lists only, not of earlier answers."""
+    resolves to is a function of the current pattern lists only, not of earlier answers.
+    ``handles[i]`` is the Deb822 under Files paragraph i when the harness built it (else None)."""
     nt = False
     if not isinstance(edits, list):
         return nt
     for k, e in enumerate(edits):
         if not (isinstance(e, list) and len(e) >= 2):
             continue
-        if e[0] == "files" and len(e) == 3 and isinstance(e[1], int) and _is_pattern_list(e[2]):
+        if (e[0] == "files" and len(e) in (3, 4) and isinstance(e[1], int)
+                and not isinstance(e[1], bool) and _is_pattern_list(e[2])):
             i = e[1] % len(flists)
-            list(doc.all_files_paragraphs())[i].files = tuple(e[2])
+            p = list(doc.all_files_paragraphs())[i]
+            handle = e[3] if len(e) == 4 and e[3] in HANDLES and handles[i] is not None else "own"
+            if handle == "own":
+                p.files = tuple(e[2])
+            else:
+                twin = C.FilesParagraph(handles[i]) if handle == "twin" else None
+                set_files(p, handles[i], twin, e[2], handle)
             flists[i] = list(e[2])
             labels.add("doc-edit:files-reassigned")
+            if handle != "own":
+                labels.add("doc-edit:files-changed-through-" + handle)
         elif e[0] == "add" and _is_pattern_list(e[1]):
-            doc.add_files_paragraph(new_para(e[1]))
+            if wrap:
+                p, d = wrap_para(e[1])
+            else:
+                p, d = new_para(e[1]), None
+            doc.add_files_paragraph(p)
+            handles.append(d)
             flists.append(list(e[1]))
             labels.add("doc-edit:paragraph-added")
         else:
             continue
-        nt = doc_observe(doc, flists, names, "document after edit %d %r" % (k, e), labels) or nt
+        nt = doc_observe(doc, flists, names, "document after edit %d %r" % (k, e), labels,
+                         fresh_check=True) or nt
     return nt
 
 
-def doc_observe(doc, flists, names, where, labels):
+def plainer(name):
+    """Plainer spellings of a path name (what a lenient lookup might try instead); evidence only."""
+    out = []
+    for c in (name[2:] if name.startswith("./") else name, name.lstrip("/"), name.rstrip("/"),
+              posixpath.normpath(name) if name else name, name.strip(),
+              unicodedata.normalize("NFC", name), name.replace("//", "/")):
+        if c != name and c not in out:
+            out.append(c)
+    return out
+
+
+def doc_observe(doc, flists, names, where, labels, fresh_check=False):
     ps = list(doc.all_files_paragraphs())
     if len(ps) != len(flists):
         raise Violation("files-field-misread", "%s: %d Files paragraphs, expected %d"
@@ -430,7 +611,7 @@ def doc_observe(doc, flists, names, where, labels):
         labels.add("doc:has-illegal-pattern")
     # each paragraph on its own first: a wrong matches() keeps its own root-cause signature
     for i, (p, r) in enumerate(zip(ps, refs)):
-        observe(p, r, names, "Files paragraph %d of %s" % (i, where))
+        observe(p, r, names, "Files paragraph %d of %s" % (i, where), fresh_check=fresh_check)
     nontrivial = False
     for name in names:
         hits = [i for i, r in enumerate(refs) if r.legal and r.matches(name)]
@@ -465,6 +646,8 @@ def doc_observe(doc, flists, names, where, labels):
                                flists[gi] if gi is not None else None, exp, hits))
         if exp is None:
             labels.add("doc:no-paragraph-matches")
+            if any(r.legal and r.matches(c) for c in plainer(name) for r in refs):
+                labels.add("doc:unmatched-name-is-a-respelling-of-a-matched-name")
         else:
             if len(hits) >= 2:
                 labels.add("doc:name-matched-by-several-paragraphs")
@@ -520,6 +703,128 @@ def enum_docs():
                 if newp != combo[which]:
                     yield {"kind": "doc", "via": "dump" if which else "text", "paras": paras,
                            "names": names, "edits": [["files", which, [newp]]]}
+    # the same over paragraphs wrapping Deb822 objects the harness keeps, changed through those
+    # or through a second wrapper
+    for combo in itertools.product(pats, repeat=2):
+        paras = [["F", [p], [" "]] for p in combo]
+        for which in (0, 1):
+            for k, newp in enumerate(pats):
+                if newp != combo[which]:
+                    yield {"kind": "doc", "via": "dump", "wrap": True, "paras": paras,
+                           "names": names,
+                           "edits": [["files", which, [newp], HANDLES[1 + (k + which) % 2]]]}
+
+
+def enum_handles():
+    """One paragraph, its list replaced (and put back) through each handle; every name each time."""
+    pats = ["a", "*", "a*", "?", "/", "*a", "a/*"]
+    names = _words(["a", "/"], 0, 3)
+    for prev in pats:
+        for new in pats:
+            if new == prev:
+                continue
+            for handle in HANDLES:
+                for seps in ([" "], ["\n "]):
+                    yield {"kind": "para", "via": "assign", "handle": handle, "prev": [prev],
+                           "patterns": [new, "a/a/a"], "seps": seps, "names": names}
+
+
+# Other spellings of a path name.  A Files pattern has to cover the whole name as it is given, so
+# a name that no paragraph matches resolves to None even if a plainer spelling of it would match.
+SPELLINGS = [
+    lambda n: "./" + n,
+    lambda n: "/" + n,
+    lambda n: n + "/",
+    lambda n: "x/../" + n,
+    lambda n: "././" + n,
+    lambda n: n.replace("/", "//"),
+    lambda n: n + "/.",
+    lambda n: n.swapcase(),
+    lambda n: " " + n,
+    lambda n: n + " ",
+    lambda n: unicodedata.normalize("NFD", n),
+    lambda n: n.replace("/", "\\"),
+    lambda n: "../" + n,
+    lambda n: n + "\n",
+]
+
+
+def respell(name):
+    return [name] + [f(name) for f in SPELLINGS]
+
+
+def enum_spellings():
+    """Documents of 1..2 Files paragraphs (mostly without a catch-all) x every spelling of names
+    that match."""
+    lists = [["a"], ["a/*"], ["*/b"], ["*.a", "a/b"], ["?"], ["b/?", "a"], ["./a"], ["*"],
+             ["\u00e9/*"]]
+    bases = ["a", "a/b", "b/a", "b.a", "a/a/b", "\u00e9/a"]
+    k = 0
+    for n in (1, 2):
+        for combo in itertools.product(lists, repeat=n):
+            paras = [["F", pl, [" "]] for pl in combo]
+            for base in bases:
+                k += 1
+                yield {"kind": "doc", "via": "dump" if k % 2 else "text", "paras": paras,
+                       "names": respell(base)}
+
+
+def translate(x, table):
+    """The case with every pattern and name character replaced according to ``table`` (a
+    character-for-character renaming of letters keeps what matches what)."""
+    if isinstance(x, str):
+        return x.translate(table)
+    if isinstance(x, list):
+        return [translate(e, table) for e in x]
+    return x
+
+
+def translate_case(case, table):
+    out = dict(case)
+    for key in ("patterns", "prev", "names"):
+        if key in out:
+            out[key] = translate(out[key], table)
+    if "paras" in out:
+        out["paras"] = [[e[0], translate(e[1], table)] + list(e[2:]) if e[0] == "F" else e
+                        for e in out["paras"]]
+    if "edits" in out:
+        out["edits"] = [[e[0], translate(e[1], table)] if e[0] == "add"
+                        else [e[0], e[1], translate(e[2], table)] + list(e[3:])
+                        for e in out["edits"]]
+    return out
+
+
+def codec_table(enc, k=0):
+    """Renaming of the letters \u00e9 a b into letters of the codec (a and b only for odd/even k)."""
+    letters = CODECS[enc]
+    table = {0xe9: letters[k % len(letters)]}
+    if k % 2:
+        table[ord("a")] = letters[(k + 1) % len(letters)]
+    if k % 3 == 0:
+        table[ord("b")] = letters[(k + 2) % len(letters)]
+    return table
+
+
+def enum_encoded():
+    """Documents and single paragraphs with letters outside ASCII in their patterns, handed to
+    Copyright as bytes in each codec, in each byte form (and, for comparison, as text)."""
+    lists = [["\u00e9"], ["\u00e9*"], ["a/\u00e9?"], ["*\u00e9", "b"], ["*"]]
+    names = ["\u00e9", "\u00e9a", "a/\u00e9b", "a\u00e9", "b", "\u00e9/", "e", "?"]
+    k = 0
+    for enc in sorted(CODECS):
+        for inp in INPUTS:
+            for n in (1, 2):
+                for combo in itertools.product(lists, repeat=n):
+                    k += 1
+                    case = {"kind": "doc", "via": "text" if k % 3 else "dump",
+                            "paras": [["F", pl, ["\n " if k % 2 else " "]] for pl in combo],
+                            "names": names, "input": inp, "enc": enc}
+                    yield translate_case(case, codec_table(enc, k))
+            for pl in lists:
+                k += 1
+                case = {"kind": "para", "via": "parse", "patterns": pl, "seps": [" ", "\n "],
+                        "names": names, "input": inp, "enc": enc}
+                yield translate_case(case, codec_table(enc, k))
 
 
 # ------------------------------------------------------------------------------------------
@@ -589,12 +894,15 @@ def instance(draw, toks):
 def derived_name(draw, lists):
     """A name close to the language of the patterns in ``lists`` (list of lists of token lists)."""
     flat = [p for l in lists for p in l]
-    how = draw(st.integers(0, 9))
+    how = draw(st.integers(0, 11))
     if how == 0:
         return draw(st.text(alphabet=name_char, max_size=7))
     s = instance(draw, flat[draw(st.integers(0, len(flat) - 1))])
     if how == 1:
         return s
+    if how >= 10:
+        # another spelling of a name that matches (leading ./, trailing /, x/../, case, ...)
+        return SPELLINGS[draw(st.integers(0, len(SPELLINGS) - 1))](s)
     if how in (2, 3, 4):
         return s + draw(st.text(alphabet=name_char, min_size=1, max_size=2))
     if how == 5:
@@ -632,12 +940,27 @@ def gen_para(draw):
             prev = draw(gen_list_tokens(maxpat=3))
         lists.append(prev)
         case["prev"] = join(prev)
-    if via == "parse":
+        case["handle"] = draw(st.sampled_from(["own", "own", "deb822", "twin"]))
+    if via in ("parse", "assign"):
         case["seps"] = [draw(st.sampled_from(LEADS))] + \
             [draw(st.sampled_from(SEPS)) for _ in range(len(tl) - 1)]
     n = draw(st.integers(1, 5))
     case["names"] = [derived_name(draw, lists) for _ in range(n)]
+    if via == "parse":
+        case = draw_input_form(draw, case)
     return case
+
+
+def draw_input_form(draw, case):
+    """How the document text reaches Copyright(...): half of the time as a text file, else as
+    text lines or as bytes in some codec, the letters renamed into letters of that codec."""
+    if draw(st.booleans()):
+        return case
+    case["input"] = draw(st.sampled_from(INPUTS[1:]))
+    enc = draw(st.sampled_from(sorted(CODECS)))
+    if case["input"] != "text-lines":
+        case["enc"] = enc
+    return translate_case(case, codec_table(enc, draw(st.integers(0, 11))))
 
 
 @st.composite
@@ -686,7 +1009,23 @@ def gen_doc(draw):
     case = {"kind": "doc", "via": via, "paras": paras, "names": names}
     if edits:
         case["edits"] = edits
-    return case
+    if via == "dump" and draw(st.booleans()):
+        case["wrap"] = True
+        for e in edits:
+            if e[0] == "files":
+                e.append(draw(st.sampled_from(HANDLES)))
+    return draw_input_form(draw, case)
+
+
+def extra_enums():
+    return [
+        Enum("second-handle", enum_handles, "one paragraph, 7x6 (old, new) lists x 3 handles x 2 "
+             "spellings of the Files text x 15 names"),
+        Enum("name-spellings", enum_spellings, "1..2 Files paragraphs over 9 lists x 6 names in "
+             "15 spellings (./n /n n/ x/../n ././n // n/. case blanks NFD backslash ../n n+newline)"),
+        Enum("encoded-documents", enum_encoded, "7 codecs x 4 input forms x (1..2 Files paragraphs "
+             "over 5 lists with non-ASCII letters + 5 single paragraphs) x 8 names"),
+    ]
 
 
 def sources(tier):
@@ -695,6 +1034,7 @@ def sources(tier):
             Enum("one-pattern<=3tok", enum_lists(1, 3, 3), "one pattern <=3 tokens x names <=3"),
             Enum("two-patterns<=2tok", enum_lists(2, 2, 3, illegal=E_ILLEGAL2), "two patterns <=2 tokens x names <=3"),
             Enum("small-documents", enum_docs, "1..3 one-pattern Files paragraphs x 15 names"),
+        ] + extra_enums() + [
             Hyp("pattern-lists", gen_para(), 600, shards=8),
             Hyp("documents", gen_doc(), 250, shards=8),
         ]
@@ -706,6 +1046,7 @@ def sources(tier):
         Enum("three-patterns<=2tok", enum_lists(3, 2, 3, tokens=["a", "/", "*", "?"], illegal=()),
              "three patterns <=2 tokens over {a / * ?} x names <=3"),
         Enum("small-documents", enum_docs, "1..3 one-pattern Files paragraphs x 15 names"),
+    ] + extra_enums() + [
         Hyp("pattern-lists", gen_para(), 6000, shards=16),
         Hyp("documents", gen_doc(), 2500, shards=16),
     ]
